@@ -1919,14 +1919,24 @@ package engine
 //@   requires u != nil && k != nil
 //@   at-call Unify requires[the-clause-is-selected-by-unifying-the-argument-with-its-stored-term] a0 == vm && ((a1 == t && a2 == raw) || (a1 == raw && a2 == t)) && a4 == env
 
+//@ -- sameClause: a clause is identified by its stored term together with its code array (compiled clauses never have
+//@ -- empty code, so for them the array decides; the stored terms of two clauses can be the same atom)
+//@ func sameClause
+//@   property C09 C05
+//@   requires a != nil && b != nil
+//@   modifies nothing
+//@   ensures[the-same-stored-term-and-the-same-code-array] result <==> id(a.raw) == id(b.raw) && len(a.bytecode) == len(b.bytecode) &&
+//@       (len(a.bytecode) == 0 || (backing(a.bytecode) == backing(b.bytecode) && offset(a.bytecode) == offset(b.bytecode)))
+
 //@ func Retract$1$1
 //@   property C09 C05
 //@   safety own
 //@   requires u != nil && k != nil
 //@   loop 1 invariant -1 <= $i && $i < old(len(u.clauses))
 //@   loop 1 invariant len(u.clauses) == old(len(u.clauses)) && backing(u.clauses) == old(backing(u.clauses)) && offset(u.clauses) == old(offset(u.clauses))
-//@   at-call append requires[deletes-the-very-clause] len(a0) < old(len(u.clauses)) && len(c.bytecode) > 0 && backing(old(u.clauses[now(len(a0))].bytecode)) == backing(c.bytecode) &&
-//@       offset(old(u.clauses[now(len(a0))].bytecode)) == offset(c.bytecode)
+//@   at-call append requires[deletes-the-very-clause] len(a0) < old(len(u.clauses)) && id(old(u.clauses[now(len(a0))].raw)) == id(c.raw) &&
+//@       len(old(u.clauses[now(len(a0))].bytecode)) == len(c.bytecode) && (len(c.bytecode) > 0 ==> backing(old(u.clauses[now(len(a0))].bytecode)) == backing(c.bytecode) &&
+//@       offset(old(u.clauses[now(len(a0))].bytecode)) == offset(c.bytecode))
 //@   onk[at-most-one-clause-goes] len(u.clauses) == old(len(u.clauses)) || len(u.clauses) == old(len(u.clauses)) - 1
 //@   bind cut = append#1
 //@   at-call append requires[keeps-every-clause-before-it] forall m int :: 0 <= m && m < len(a0) ==> a0[m].raw == old(u.clauses[m].raw) && a0[m].bytecode == old(u.clauses[m].bytecode)
